@@ -100,7 +100,7 @@ CHECKS = {
   note="three genuine defects fixed (speculative state advanced by a rejected under-paid A->U; unsynchronised BasicChecked flag; Sender writing to the shared transaction). Wall-clock rules (GoodTxDropTime, cache expiry) are pinned off; special transactions and contract calls are not generated here (C05 does)."),
  "C08": dict(
   level="exploration", design="§5 C08", engine="chainkit",
-  technique="mutation monitoring of the real signature and ownership checks: every signed transaction kind is perturbed at every leaf of its wire tree (plus structural, multi-field, signature-encoding and chain-parameter forms) and offered to CheckBasic, the mempool and a second replica's CheckBlock; differential lane against a pure-Go secp256k1 reference for Ecrecover/VerifySignature/ValidateSignatureValues/From; ownership scans with non-owner key sets; sender-cache lane (warm object vs fresh recovery, warm vs cold replica)",
+  technique="mutation monitoring of the real signature and ownership checks: every signed transaction kind is perturbed at every leaf of its wire tree (plus structural, multi-field, signature-encoding and chain-parameter forms) and offered to CheckBasic, the mempool and a second replica's CheckBlock; differential lane against a pure-Go secp256k1 reference for Ecrecover/VerifySignature/ValidateSignatureValues/From, repeated together with a length/shape sweep of the cgo wrapper in an AddressSanitizer build (lane C08A); ownership scans with non-owner key sets; sender-cache lane (warm object vs fresh recovery, warm vs cold replica)",
   text="Four lanes. account: honest tx/create/txt/cut/mst, every leaf mutated with all byte and structural operators, 57 hostile (r,s,v) forms per signature, 6 hash suffixes x 3 v-forms (other chain parameter, none). confidential: two replicas, five wallets x four sub-addresses scan every output (owner recognises/decodes/derives the key image, non-owners are blind), five spend kinds mutated by reflection at every typed site plus re-balanced pseudo-outs, compensated fee, forged spends with non-owner keys; a mutant counts as accepted only if CheckBasic passes and a block containing it passes CheckBlock on the second replica. cache: re-signed warm objects and pool-cached candidates must be attributed to the sender recovered from their bytes. signature: library functions vs the reference. Held on what was explored, modulo three known findings.",
   note="one genuine defect fixed (memoised sender survived re-signing). Known findings (repairs would change consensus rules / transaction format): unprotected v=27/28 signatures accepted; RCTSig of account->confidential transactions unsigned; ring-size-1 pseudo-outs unbound. RingCT is the stand-in: the composition of the pre-MLSAG hash is the shim's."),
  "C09": dict(
